@@ -495,7 +495,7 @@ def run(ctx, sf):
         oracle_spec(ctx, sf, spec, via="text")
         oracle_spec(ctx, sf, spec, via="file", check_state=False, check_code=False)
         corr_spec(ctx, sf, spec, reqs, pending)
-    total = ctx.n(260, 3000)
+    total = ctx.n(260, 8000)
     wsum = sum(w for _, w in PLANS)
     idx = 0
     for feats, w in PLANS:
@@ -504,7 +504,7 @@ def run(ctx, sf):
             ctx.count("prog:" + "+".join(feats), spec, nontrivial(spec), sample=spec)
             oracle_spec(ctx, sf, spec, via="file" if idx % 5 == 0 else "text")
             corr_spec(ctx, sf, spec, reqs, pending)
-    total_t = ctx.n(90, 1000)
+    total_t = ctx.n(90, 2500)
     wsum = sum(w for _, w in TDM_PLANS)
     for feats, w in TDM_PLANS:
         for _ in range(max(4, total_t * w // wsum)):
